@@ -29,6 +29,22 @@ CLAIMS = {
             "Trusts clang's AST and the no-return contract of mju_error/mjERROR.", "DESIGN.md 4/C20"),
 }
 
+CLAIMS["C26"] = ("other", "table-agreement rules over the clang AST (state switches vs X-macro extents vs mjtState), loop/cursor shape "
+                 "rules, must-write coverage of the reset path over the call graph",
+                 "Decides the structural clauses of C26 for all models and signatures: every state bit has consistent size/pointer/"
+                 "extent entries, the five state loops visit every bit with the same cursor discipline in opposite copy directions, "
+                 "mj_resetData unconditionally reinitialises every mjData member the simulation writes, keyframe functions use every "
+                 "key_* array with its declared extent. Values copied are not decided.",
+                 "Trusts clang's AST and preprocessor expansion of the X-macros.", "DESIGN.md 4/C26")
+CLAIMS["C31"] = ("other", "reader/writer/size sequence agreement, guard budgeting, struct coverage and validation-table rules over the "
+                 "macro-expanded clang AST",
+                 "Decides for every model and every byte buffer the structural clauses of C31: writer, reader and size function agree "
+                 "item by item (~490 items), every read is covered by a rejecting truncation guard, every mjModel member is serialised or "
+                 "explicitly exempt, the validation table rows carry the X-macro extents, every cross-reference array is bound-checked "
+                 "(26 known gaps are listed as known findings), no fatal error or -1 index in the validator. Byte equality of contents is "
+                 "the memcpy mechanism covered by the sequence rule; semantic validity beyond bounds is not decided.",
+                 "Trusts clang's AST/preprocessor; bufread/bufwrite bodies (5 lines) are part of the TU.", "DESIGN.md 4/C31")
+
 NOT_APPLICABLE = {
     "C06": "numerical identities of M, LTDL and RNE over real-valued runtime data; no clause is visible in code shape",
     "C07": "'J equals the derivative of position' and proper-rotation claims are numerical; joint-type exhaustiveness is decided under C05",
